@@ -111,7 +111,10 @@ def judge_sqlite(case, obs):
         if not issued:
             foreign_calls += 1       # commit()/rollback()/close() that send nothing: judged by their effects below
             continue
-        inherited = e['conn'] in session_conns and state in OPEN_WITH_CONNECTION
+        # the connection was held by an open db_session of its creator when that process forked: either the parent's
+        # session connection, or a connection of a child that itself lives inside the (never ending) inherited session
+        inherited = ((e['conn'] in session_conns and state in OPEN_WITH_CONNECTION)
+                     or (state in OPEN_STATES and labels.get(e['creator']) != 'P'))
         tag = '[inherited-session]' if inherited else '[pooled]'
         what = {'commit': 'COMMIT', 'rollback': 'ROLLBACK', 'close': 'close() of an open transaction'}.get(e['op'], _short(e))
         findings.append(('foreign-statement' + ('-inherited' if inherited else '-pooled'),
@@ -135,18 +138,29 @@ def judge_sqlite(case, obs):
             if op == 'fork':
                 child_ops(r['sub']['records'], r['sub_who'], fresh)
                 continue
-            may_lock = model['parent_open']
+            # a writer may be refused as locked while the parent's session is open, or (grandchild) while the forking
+            # child lives inside the inherited, never ending session and may hold a transaction of its own
+            may_lock = model['parent_open'] or (child_in_inherited and who != 'C')
             if op == 'read':
                 if not r['ok']:
-                    findings.append(('child-op-failed', '%s read in its own session failed: %r' % (who, r['exc'])))
+                    # a process that lives inside the inherited (never ending) db_session carries session state across
+                    # its nested db_sessions: the transaction mode 'immediate' after the parent's flush/commit, or the
+                    # unsaved object of an earlier write that was refused as locked; its read may therefore ask for the
+                    # write lock the parent still holds
+                    if not (may_lock and child_in_inherited and _is_locked(r)):
+                        findings.append(('child-op-failed', '%s read in its own session failed: %r' % (who, r['exc'])))
                 elif fresh and r['result'] != sorted(model['committed']):
                     findings.append(('visibility', '%s read %r in a new session, committed so far %r'
                                      % (who, r['result'], sorted(model['committed']))))
+                if child_in_inherited:
+                    fresh = False        # the session cache (query results) now lives on across nested db_sessions
             elif op == 'write':
                 if r['ok']:
                     model['committed'].append(r['label'])
                 elif not (may_lock and _is_locked(r)):
                     findings.append(('child-op-failed', '%s write+commit %r failed: %r' % (who, r['label'], r['exc'])))
+                if child_in_inherited:
+                    fresh = False
             elif op == 'getconn':
                 if r['ok']:
                     res = r['result']
@@ -158,6 +172,8 @@ def judge_sqlite(case, obs):
                                          % (who, res['names'], sorted(model['committed']))))
                 elif not (may_lock and _is_locked(r)):
                     findings.append(('child-op-failed', '%s get_connection failed: %r' % (who, r['exc'])))
+                if child_in_inherited:
+                    fresh = False
             elif op == 'disconnect':
                 if child_in_inherited:
                     if r['ok'] or r['exc']['type'] != 'TransactionError':
